@@ -15,10 +15,12 @@ Semantics in words
   declared fields (recursively through arrays, typed maps and struct members);
 * `map call`: one invocation per index / key of the (first) split collection,
   the outputs are the array / typed map of the per-element outputs;
-* a `disabled` control that is JSON null (a null stage output) counts as "not disabled" — what the
-  code does too (`Fork.disabled`: unmarshalling `null` into a bool leaves false); a control bound to
-  an output of a call that may itself be disabled is rejected by the compiler (observed: family
-  null-control);
+* a `disabled` control without a value counts as "not disabled".  The code does the same for a
+  null SCALAR output (`Fork.disabled`: unmarshalling the raw `null` into a bool leaves false), but
+  FAILS the fork when the control is a member projected from a NULL STRUCT value ("disabled is bound
+  to a null value"): there den is not the code (known finding C01-F39, audit pass 3 A3; fail-stop).
+  A control bound to an output of a call that may itself be disabled is rejected by the compiler
+  (all observed: family null-control);
 * a disabled call, and a mapped call over an empty / null collection, runs
   nothing and every output is `dnull` (a distinguished null which an
   implementation may render as null, an empty collection or a collection of nulls);
